@@ -5,7 +5,8 @@
 From LV Require Import Base.Bytes Base.Sx Model.Obj Model.Writer Model.Parser Model.Save Model.Xref Model.Loader
   Model.Utf Gen.Lex Gen.SaveFmt Proofs.LexProofs Proofs.RealProofs Proofs.ObjectRtProofs Proofs.SaveProofs
   Proofs.FilterProofsDict Spec.SaveSpec Proofs.LoadProofs Proofs.LoadProofsFile Proofs.LoadProofsXref
-  Proofs.LoadProofsTable Proofs.LoadProofsAgain Proofs.LoadProofsStream.
+  Proofs.LoadProofsTable Proofs.LoadProofsAgain Proofs.LoadProofsStream
+  Model.ObjStm Model.LoaderExt Model.LoaderEnc Proofs.LoaderExtProofs Proofs.LoaderEncProofs.
 
 Local Open Scope N_scope.
 
@@ -82,15 +83,15 @@ Lemma known_deep_written d : savable d -> known_deep (written d) = known_deep d.
 Proof. intro S. rewrite written_savable by exact S. reflexivity. Qed.
 
 (* ---------- the document reloaded from the stream format ---------- *)
-Lemma xstream_of_shape d : savable_core d -> small_file_core XStream d ->
+Lemma xstream_of_shape_enc d : savable_core_enc d -> small_file_core XStream d ->
   exists secs len,
     fst (fst (xstream_of d)) =
       xs_trailer (d_trailer d) (Z.of_N (d_max_id d + 1 + 1)) (xstream_index secs) (Z.of_nat len) /\
     Forall (fun s : xsection => fst s + N.of_nat (length (snd s)) <= two32) secs /\
     (Z.of_nat len < 4294967296)%Z.
 Proof.
-  intros S Hsmall. pose proof (sv_max_id d S) as Hm.
-  pose proof (save_stream_ok d S) as Hok.
+  intros S Hsmall. pose proof (se_max_id d S) as Hm.
+  pose proof (save_stream_ok_enc d S) as Hok.
   destruct (save_core_shape XStream d Hok) as [mid [Hbytes Hmid]]. cbv zeta in Hmid.
   unfold small_file_core in Hsmall. rewrite Hbytes in Hsmall.
   fold (xstream_of d) in Hmid. revert Hmid.
@@ -105,6 +106,14 @@ Proof.
     { rewrite Hmid, wio_eq, write_stream_eq. repeat (rewrite app_length; cbn [length]). lia. }
     unfold Save.blen, u32_mod in Hsmall. rewrite !app_length in Hsmall. lia.
 Qed.
+
+Lemma xstream_of_shape d : savable_core d -> small_file_core XStream d ->
+  exists secs len,
+    fst (fst (xstream_of d)) =
+      xs_trailer (d_trailer d) (Z.of_N (d_max_id d + 1 + 1)) (xstream_index secs) (Z.of_nat len) /\
+    Forall (fun s : xsection => fst s + N.of_nat (length (snd s)) <= two32) secs /\
+    (Z.of_nat len < 4294967296)%Z.
+Proof. intro S. apply xstream_of_shape_enc, core_enc. exact S. Qed.
 
 Definition six_keys : list bytes := [K_Type; Save.K_Size; Save.K_W; Save.K_Index; K_Length; K_Filter].
 
@@ -167,29 +176,32 @@ Proof. unfold last_object_number. apply fold_left_app. Qed.
 (* the stream-format reload, as save sees it at the next cycle: the cross-reference stream object dropped *)
 Definition restream (d : doc) : doc := with_objects (reloaded_stream d) (norm_objects (d_objects d)).
 
-Lemma written_reloaded_stream d : savable_core d -> written (reloaded_stream d) = restream d.
+Lemma written_reloaded_stream_enc d : savable_core_enc d -> written (reloaded_stream d) = restream d.
 Proof.
-  intro S. pose proof (sv_trailer d S) as Hw. inversion Hw as [| | | | | | |tr W _|]; subst.
+  intro S. pose proof (se_trailer d S) as Hw. inversion Hw as [| | | | | | |tr W _|]; subst.
   destruct (xstream_obj_skipped d W) as [Hsk _].
   assert (Hlast : last_number (d_objects d) <= d_max_id d).
-  { unfold last_number. apply fold_max_le; [lia|]. pose proof (sv_objects d S) as Ho.
+  { unfold last_number. apply fold_max_le; [lia|]. pose proof (se_objects d S) as Ho.
     eapply Forall_impl; [|exact Ho]. intros io [H1 _]. exact H1. }
   unfold written, restream, with_objects, raise_max_id, with_trailer.
   cbn [reloaded_stream d_version d_binary_mark d_trailer d_objects d_max_id]. f_equal.
   - unfold kept. rewrite filter_app. cbn [filter snd]. rewrite Hsk. cbn [negb]. rewrite app_nil_r.
     apply kept_all. unfold norm_objects. apply Forall_forall. intros io' Hin. apply in_map_iff in Hin as [io [<- Hin]].
-    cbn [snd]. rewrite skipped_norm. pose proof (sv_objects d S) as Ho. rewrite Forall_forall in Ho. apply (Ho io Hin).
+    cbn [snd]. rewrite skipped_norm. pose proof (se_objects d S) as Ho. rewrite Forall_forall in Ho. apply (Ho io Hin).
   - rewrite last_object_number_app. cbn [fold_left fst]. fold (last_number (norm_objects (d_objects d))).
     rewrite last_number_norm. lia.
 Qed.
 
-Lemma savable_restream d :
-  savable_core d -> known_deep d = false -> small_file_core XStream d -> d_max_id d + 3 < u32_mod ->
-  savable_core (restream d) /\ known_deep (restream d) = false.
+Lemma written_reloaded_stream d : savable_core d -> written (reloaded_stream d) = restream d.
+Proof. intro S. apply written_reloaded_stream_enc, core_enc. exact S. Qed.
+
+Lemma savable_restream_enc d :
+  savable_core_enc d -> known_deep d = false -> small_file_core XStream d -> d_max_id d + 3 < u32_mod ->
+  savable_core_enc (restream d) /\ known_deep (restream d) = false.
 Proof.
   intros S K Hsmall Hfit.
-  pose proof (sv_trailer d S) as Hw. inversion Hw as [| | | | | | |tr W Hf|]; subst.
-  destruct (xstream_of_shape d S Hsmall) as [secs [len [Et [Hsecs Hlen]]]].
+  pose proof (se_trailer d S) as Hw. inversion Hw as [| | | | | | |tr W Hf|]; subst.
+  destruct (xstream_of_shape_enc d S Hsmall) as [secs [len [Et [Hsecs Hlen]]]].
   pose proof (t6_wf d S secs len Hsecs Hlen) as Hwf6.
   pose proof (t6_nest d S K secs len Hsecs) as Hn6.
   rewrite <- Et in Hwf6, Hn6.
@@ -200,20 +212,17 @@ Proof.
   split.
   - constructor; cbn [restream with_objects reloaded_stream d_max_id d_binary_mark d_version d_objects].
     + lia.
-    + apply (sv_mark d S).
-    + apply (sv_version_eol d S).
-    + apply (sv_version_utf8 d S).
-    + rewrite obj_numbers_norm. apply (sv_numbers d S).
-    + pose proof (sv_objects d S) as Ho. unfold norm_objects. apply Forall_forall. intros io' Hin.
+    + apply (se_mark d S).
+    + apply (se_version_eol d S).
+    + apply (se_version_utf8 d S).
+    + rewrite obj_numbers_norm. apply (se_numbers d S).
+    + pose proof (se_objects d S) as Ho. unfold norm_objects. apply Forall_forall. intros io' Hin.
       apply in_map_iff in Hin as [io [<- Hin]]. rewrite Forall_forall in Ho. destruct (Ho io Hin) as [H1 [H2 [H3 H4]]].
       cbn [fst snd]. split; [eapply N.le_trans; [exact H1 | lia]|]. split; [exact H2|]. split; [apply top_wf_norm; exact H3 | rewrite skipped_norm; exact H4].
     + rewrite Etr. constructor; [apply sr3_wf; exact Wn | apply sr3_forall; assumption].
     + change (dict_has (d_trailer (reloaded_stream d)) Save.K_Prev = false).
       unfold dict_has. rewrite reloaded_stream_trailer_get by (try exact W; cbn; intuition discriminate).
-      rewrite dict_get_norm. rewrite (dict_has_false_get _ _ (sv_no_prev d S)). reflexivity.
-    + change (dict_has (d_trailer (reloaded_stream d)) Save.K_Encrypt = false).
-      unfold dict_has. rewrite reloaded_stream_trailer_get by (try exact W; cbn; intuition discriminate).
-      rewrite dict_get_norm. rewrite (dict_has_false_get _ _ (sv_no_encrypt d S)). reflexivity.
+      rewrite dict_get_norm. rewrite (dict_has_false_get _ _ (se_no_prev d S)). reflexivity.
   - unfold known_deep in *. apply orb_false_iff in K as [K1 K2]. apply orb_false_iff. split.
     + cbn [restream with_objects d_objects]. unfold norm_objects.
       apply not_true_is_false. intro E. apply existsb_exists in E as [io' [Hin E]].
@@ -230,14 +239,29 @@ Proof.
       pose proof (nest_norm (ODict t6)) as En. change (Datatypes.S (nest_dict (norm_dict t6)) = Datatypes.S (nest_dict t6)) in En. lia.
 Qed.
 
-Lemma written_reloaded_table d : savable_core d -> written (reloaded_table d) = reloaded_table d.
+Lemma savable_restream d :
+  savable_core d -> known_deep d = false -> small_file_core XStream d -> d_max_id d + 3 < u32_mod ->
+  savable_core (restream d) /\ known_deep (restream d) = false.
+Proof.
+  intros S K Hsmall Hfit. destruct (savable_restream_enc d (core_enc d S) K Hsmall Hfit) as [S1 K1].
+  split; [|exact K1]. apply core_of_enc; [exact S1|].
+  pose proof (sv_trailer d S) as Hw. inversion Hw as [| | | | | | |tr W Hf|]; subst.
+  change (dict_has (d_trailer (reloaded_stream d)) Save.K_Encrypt = false).
+  unfold dict_has. rewrite reloaded_stream_trailer_get by (try exact W; cbn; intuition discriminate).
+  rewrite dict_get_norm. rewrite (dict_has_false_get _ _ (sv_no_encrypt d S)). reflexivity.
+Qed.
+
+Lemma written_reloaded_table_enc d : savable_core_enc d -> written (reloaded_table d) = reloaded_table d.
 Proof.
   intro S. unfold written, with_objects, raise_max_id, with_trailer, reloaded_table.
   cbn [d_version d_binary_mark d_trailer d_objects d_max_id]. f_equal.
   - apply kept_all. unfold norm_objects. apply Forall_forall. intros io' Hin. apply in_map_iff in Hin as [io [<- Hin]].
-    cbn [snd]. rewrite skipped_norm. pose proof (sv_objects d S) as Ho. rewrite Forall_forall in Ho. apply (Ho io Hin).
+    cbn [snd]. rewrite skipped_norm. pose proof (se_objects d S) as Ho. rewrite Forall_forall in Ho. apply (Ho io Hin).
   - fold (last_number (norm_objects (d_objects d))). rewrite last_number_norm. apply N.max_id.
 Qed.
+
+Lemma written_reloaded_table d : savable_core d -> written (reloaded_table d) = reloaded_table d.
+Proof. intro S. apply written_reloaded_table_enc, core_enc. exact S. Qed.
 
 (* ---------- the comparison ---------- *)
 Lemma user_objects_norm_kept (objs : objmap) :
@@ -250,15 +274,18 @@ Proof.
     rewrite Forall_forall in H. apply (not_skipped_not_xref _ (H io Hin)).
 Qed.
 
+Lemma core_not_skipped_enc d : savable_core_enc d -> Forall (fun io : oid * obj => skipped (snd io) = false) (d_objects d).
+Proof. intro S. pose proof (se_objects d S) as Ho. eapply Forall_impl; [|exact Ho]. intros io [_ [_ [_ H]]]. exact H. Qed.
+
 Lemma core_not_skipped d : savable_core d -> Forall (fun io : oid * obj => skipped (snd io) = false) (d_objects d).
-Proof. intro S. pose proof (sv_objects d S) as Ho. eapply Forall_impl; [|exact Ho]. intros io [_ [_ [_ H]]]. exact H. Qed.
+Proof. intro S. apply core_not_skipped_enc, core_enc. exact S. Qed.
 
 Lemma in_six_bookkeeping k : ~ In k bookkeeping -> ~ In k six_keys.
 Proof. unfold bookkeeping, six_keys. cbn [In]. tauto. Qed.
 
-Lemma same_doc_reloaded_table d : savable_core d -> same_doc d (reloaded_table d).
+Lemma same_doc_reloaded_table_enc d : savable_core_enc d -> same_doc d (reloaded_table d).
 Proof.
-  intro S. destruct (user_objects_norm_kept _ (core_not_skipped d S)) as [U1 U2].
+  intro S. destruct (user_objects_norm_kept _ (core_not_skipped_enc d S)) as [U1 U2].
   split; [reflexivity|]. split.
   - cbn [reloaded_table d_objects]. rewrite U1, U2. reflexivity.
   - intros k Hk. cbn [reloaded_table d_trailer]. rewrite !dict_get_norm. unfold trailer_table.
@@ -267,16 +294,21 @@ Proof.
     + apply bytes_eqb_neq in E. rewrite dict_get_set_other by exact E. reflexivity.
 Qed.
 
-Lemma same_doc_reloaded_stream d : savable_core d -> same_doc d (reloaded_stream d).
+Lemma same_doc_reloaded_stream_enc d : savable_core_enc d -> same_doc d (reloaded_stream d).
 Proof.
-  intro S. destruct (user_objects_norm_kept _ (core_not_skipped d S)) as [U1 U2].
-  pose proof (sv_trailer d S) as Hw. inversion Hw as [| | | | | | |tr W _|]; subst.
+  intro S. destruct (user_objects_norm_kept _ (core_not_skipped_enc d S)) as [U1 U2].
+  pose proof (se_trailer d S) as Hw. inversion Hw as [| | | | | | |tr W _|]; subst.
   destruct (xstream_obj_skipped d W) as [_ Hx].
   split; [reflexivity|]. split.
   - cbn [reloaded_stream d_objects]. unfold user_objects at 1. rewrite filter_app. cbn [filter snd]. rewrite Hx. cbn [negb].
     rewrite app_nil_r. fold (user_objects (norm_objects (d_objects d))). rewrite U1, U2. reflexivity.
   - intros k Hk. apply reloaded_stream_trailer_get; [exact W | apply in_six_bookkeeping; exact Hk].
 Qed.
+
+Lemma same_doc_reloaded_table d : savable_core d -> same_doc d (reloaded_table d).
+Proof. intro S. apply same_doc_reloaded_table_enc, core_enc. exact S. Qed.
+Lemma same_doc_reloaded_stream d : savable_core d -> same_doc d (reloaded_stream d).
+Proof. intro S. apply same_doc_reloaded_stream_enc, core_enc. exact S. Qed.
 
 (* the comparison looks at the first document only through version, user objects and trailer *)
 Lemma same_doc_ext a a' b :
@@ -341,3 +373,157 @@ Proof.
   split; [apply load_save_gen; assumption|]. split; [exact D2|].
   apply (same_doc_trans d (reloaded xt d)); [exact Hw | apply (sd_trailer d S) | exact D1 | exact D2].
 Qed.
+
+(* ==========================================================================================================
+   Documents that may carry an Encrypt entry ([savable_enc] = [savable] without "no Encrypt"), read by
+   Model/LoaderEnc.v's reader: the decrypt attempt [after] is handed EXACTLY the reloaded document (and the
+   cross-reference table of the file, which holds Normal entries only); without an Encrypt entry the answer is the
+   reloaded document, as for Loader.load.  Both formats, the property's comparison, the second cycle.
+   ========================================================================================================== *)
+Lemma savable_enc_of d : savable d -> savable_enc d.
+Proof.
+  intro S. constructor;
+    [apply (sd_max_id d S) | apply (sd_mark d S) | apply (sd_version_eol d S) | apply (sd_version_utf8 d S)
+    | apply (sd_numbers d S) | apply (sd_objects d S) | apply (sd_trailer d S) | apply (sd_no_prev d S)].
+Qed.
+
+Lemma savable_of_enc d : savable_enc d -> dict_has (d_trailer d) Save.K_Encrypt = false -> savable d.
+Proof.
+  intros S E. constructor;
+    [apply (sn_max_id d S) | apply (sn_mark d S) | apply (sn_version_eol d S) | apply (sn_version_utf8 d S)
+    | apply (sn_numbers d S) | apply (sn_objects d S) | apply (sn_trailer d S) | apply (sn_no_prev d S) | exact E].
+Qed.
+
+Lemma written_savable_enc d : savable_enc d -> written d = raise_max_id d.
+Proof.
+  intro S. unfold written. fold (kept (d_objects d)). rewrite kept_all; [reflexivity|].
+  pose proof (sn_objects d S) as Ho. eapply Forall_impl; [|exact Ho]. intros io [_ [_ H]]. exact H.
+Qed.
+
+Lemma savable_written_enc d : savable_enc d -> savable_core_enc (written d).
+Proof.
+  intro S. rewrite written_savable_enc by exact S.
+  constructor; cbn [raise_max_id with_trailer d_max_id d_binary_mark d_version d_objects d_trailer].
+  - apply (sn_max_id d S).
+  - apply (sn_mark d S).
+  - apply (sn_version_eol d S).
+  - apply (sn_version_utf8 d S).
+  - apply (sn_numbers d S).
+  - pose proof (sn_objects d S) as Ho. rewrite Forall_forall in *. intros io Hin. destruct (Ho io Hin) as [H2 [H3 H4]].
+    split; [|split; [|split]]; try assumption.
+    eapply N.le_trans; [apply (le_last_number (d_objects d) io 0 Hin)|]. apply N.le_max_r.
+  - apply (sn_trailer d S).
+  - apply (sn_no_prev d S).
+Qed.
+
+Lemma known_deep_written_enc d : savable_enc d -> known_deep (written d) = known_deep d.
+Proof. intro S. rewrite written_savable_enc by exact S. reflexivity. Qed.
+
+Lemma dict_has_option_map (t : dict) k (o : option obj) :
+  dict_get t k = option_map norm_obj o -> dict_has t k = match o with Some _ => true | None => false end.
+Proof. intro H. unfold dict_has. rewrite H. destruct o; reflexivity. Qed.
+
+(* the trailer the reader ends up with has an Encrypt entry exactly when the document's trailer has one *)
+Lemma has_encrypt_table d :
+  dict_has (norm_dict (trailer_table d)) Loader.K_Encrypt = dict_has (d_trailer d) Save.K_Encrypt.
+Proof.
+  rewrite (dict_has_option_map _ _ (dict_get (d_trailer d) Save.K_Encrypt)).
+  - unfold dict_has. reflexivity.
+  - rewrite dict_get_norm. unfold trailer_table. change Loader.K_Encrypt with Save.K_Encrypt.
+    rewrite dict_get_set_other by discriminate. reflexivity.
+Qed.
+
+Section EncCycle.
+  Variable decompress : dict -> bytes -> option (dict * bytes).
+  Variable can_decompress : dict -> bool.
+  Variable R : Type.
+  Variable ret : lres -> R.
+  Variable after : Xref.xmap -> doc -> xtype -> R.
+
+  Definition enc_answer (x : Save.xmap) (t : dict) (d' : doc) (xt : xref_type) : R :=
+    if dict_has t Save.K_Encrypt then after (conv_map x) d' (xtype_of xt) else ret (LOk d' (xtype_of xt)).
+
+  (* one cycle, either format, on the pipeline's domain *)
+  Theorem load_save_gen_enc xt d :
+    savable_core_enc (written d) -> known_deep (written d) = false -> small_file xt d ->
+    exists x : Save.xmap, Forall normal_ok x /\
+      load_encx decompress can_decompress R ret after (so_bytes (save xt d)) =
+      enc_answer x (d_trailer d) (reloaded xt d) xt.
+  Proof.
+    intros S K Hs. unfold small_file in Hs. rewrite save_written in *. unfold enc_answer.
+    change (d_trailer d) with (d_trailer (written d)).
+    destruct xt; cbn [reloaded xtype_of].
+    - destruct (front_save_table (written d) S K Hs) as [x [Hf [Hm [Hn Hr]]]]. exists x. split; [exact Hn|].
+      rewrite (load_encx_of_front_any decompress can_decompress R ret after _ _ _ Hf Hr).
+      cbn [f_trailer f_xref]. rewrite has_encrypt_table.
+      assert (E : doc_of {| f_buf := so_bytes (save_core XTable (written d)); f_version := d_version (written d);
+                            f_mark := d_binary_mark (written d); f_xref := table_xref x (d_max_id (written d) + 1);
+                            f_trailer := norm_dict (trailer_table (written d)) |} (norm_objects (d_objects (written d)))
+                  = reloaded_table (written d)).
+      { unfold doc_of, reloaded_table. cbn [f_version f_mark f_trailer f_xref]. rewrite Hm. reflexivity. }
+      rewrite E. reflexivity.
+    - destruct (front_save_stream (written d) S K Hs) as [x1 [Hf [Hm [Hn [Hr Hk]]]]]. exists x1. split; [exact Hn|].
+      rewrite (load_encx_of_front_any decompress can_decompress R ret after _ _ _ Hf Hr).
+      cbn [f_trailer f_xref].
+      assert (He : dict_has (d_trailer (reloaded_stream (written d))) Loader.K_Encrypt =
+                   dict_has (d_trailer (written d)) Save.K_Encrypt).
+      { rewrite (dict_has_option_map _ _ (dict_get (d_trailer (written d)) Save.K_Encrypt));
+          [unfold dict_has; reflexivity|].
+        rewrite Hk. reflexivity. }
+      rewrite He.
+      assert (E : doc_of {| f_buf := so_bytes (save_core XStream (written d)); f_version := d_version (written d);
+                            f_mark := d_binary_mark (written d); f_xref := stream_xref x1 (d_max_id (written d) + 1 + 1);
+                            f_trailer := d_trailer (reloaded_stream (written d)) |} (d_objects (reloaded_stream (written d)))
+                  = reloaded_stream (written d)).
+      { unfold doc_of. cbn [f_version f_mark f_trailer f_xref]. rewrite Hm. reflexivity. }
+      rewrite E. reflexivity.
+  Qed.
+
+  (* THE PROPERTY on the wider domain: both formats, two cycles *)
+  Theorem load_save_enc xt d :
+    savable_enc d -> known_deep d = false -> small_file xt d -> cycles_fit xt d ->
+    (exists x : Save.xmap, Forall normal_ok x /\
+       load_encx decompress can_decompress R ret after (so_bytes (save xt d)) =
+       enc_answer x (d_trailer d) (reloaded xt d) xt) /\
+    same_doc d (reloaded xt d) /\
+    (small_file xt (reloaded xt d) ->
+     (exists x : Save.xmap, Forall normal_ok x /\
+        load_encx decompress can_decompress R ret after (so_bytes (save xt (reloaded xt d))) =
+        enc_answer x (d_trailer (reloaded xt d)) (reloaded xt (reloaded xt d)) xt) /\
+     same_doc (reloaded xt d) (reloaded xt (reloaded xt d)) /\
+     same_doc d (reloaded xt (reloaded xt d))).
+  Proof.
+    intros S K Hs Hfit.
+    pose proof (savable_written_enc d S) as S0.
+    assert (K0 : known_deep (written d) = false) by (rewrite known_deep_written_enc; assumption).
+    assert (Hs0 : small_file_core xt (written d)).
+    { unfold small_file_core. rewrite <- save_written. exact Hs. }
+    assert (D1 : same_doc d (reloaded xt d)).
+    { apply (same_doc_ext d (written d)); [reflexivity | rewrite written_savable_enc by exact S; reflexivity | reflexivity |].
+      destruct xt; [apply same_doc_reloaded_table_enc | apply same_doc_reloaded_stream_enc]; exact S0. }
+    split; [apply load_save_gen_enc; assumption|]. split; [exact D1|]. intro Hs1.
+    assert (Hw : Forall (fun io : oid * obj => top_wf (snd io)) (user_objects (d_objects d))).
+    { destruct (user_objects_norm_kept (d_objects d)) as [U _].
+      - pose proof (sn_objects d S) as Ho. eapply Forall_impl; [|exact Ho]. intros io [_ [_ H]]. exact H.
+      - rewrite U. pose proof (sn_objects d S) as Ho. eapply Forall_impl; [|exact Ho]. intros io [_ [H _]]. exact H. }
+    assert (Hsecond : savable_core_enc (written (reloaded xt d)) /\ known_deep (written (reloaded xt d)) = false /\
+                      same_doc (reloaded xt d) (reloaded xt (reloaded xt d))).
+    { destruct xt; cbn [reloaded] in *.
+      - rewrite written_reloaded_table_enc by exact S0.
+        split; [apply savable_reloaded_enc; exact S0|]. split; [apply known_deep_reloaded; exact K0|].
+        apply same_doc_reloaded_table_enc. apply savable_reloaded_enc. exact S0.
+      - rewrite written_reloaded_stream_enc by exact S0.
+        assert (Hm : d_max_id (written d) + 3 < u32_mod).
+        { rewrite written_savable_enc by exact S. exact Hfit. }
+        destruct (savable_restream_enc (written d) S0 K0 Hs0 Hm) as [S1 K1].
+        split; [exact S1|]. split; [exact K1|].
+        apply (same_doc_ext _ (restream (written d))); [reflexivity | | reflexivity | apply same_doc_reloaded_stream_enc; exact S1].
+        pose proof (se_trailer _ S0) as Hwt. inversion Hwt as [| | | | | | |tr W _|]; subst.
+        destruct (xstream_obj_skipped (written d) W) as [_ Hx].
+        cbn [reloaded_stream restream with_objects d_objects]. unfold user_objects at 1. rewrite filter_app. cbn [filter snd].
+        rewrite Hx. cbn [negb]. rewrite app_nil_r. reflexivity. }
+    destruct Hsecond as [S1 [K1 D2]].
+    split; [apply load_save_gen_enc; assumption|]. split; [exact D2|].
+    apply (same_doc_trans d (reloaded xt d)); [exact Hw | apply (sn_trailer d S) | exact D1 | exact D2].
+  Qed.
+End EncCycle.
